@@ -55,7 +55,9 @@ INPLACE_FUNC_FIRST_ARG = {
     "numpy.fill_diagonal", "numpy.random.shuffle", "torch.nn.init.zeros_", "random.shuffle",
 }
 INPLACE_METHODS_NO_UNDERSCORE = {"fill", "sort", "resize", "put", "itemset", "setflags", "partition",
-                                 "byteswap_inplace"}
+                                 "byteswap_inplace",
+                                 # python containers handed in by the caller (lists of spacings/motifs, kwargs dicts)
+                                 "append", "extend", "insert", "pop", "remove", "reverse", "clear", "update", "popitem"}
 INPLACE_OBJ_METHOD_ARG0 = {"shuffle"}      # random_state.shuffle(x) permutes x in place
 NOT_INPLACE_UNDERSCORE = set()             # dunder handled separately
 
